@@ -148,6 +148,7 @@ def run(rep):
         items.append({"line": {"form": "blank"}, "text": t, "cfg": cfg0, "lang": "en", "expected": {"k": "empty"}, "variant": "empty",
                       "feat": {"form": "blank", "rewrite": "empty", "detail": t.strip()[:12]}, "class_fn": cls, "nontrivial": True})
     forms.replay(rep, items, "c16.gen")
+    variable_case(rep, rng, 400 if quick else 20000)
     # impl -> spec: the same rewritings with fresh random choices, validated by TLC
     titems = []
     allp = [it for pool in pools for it in pool if it["expected"]["k"] != "unspec"]
@@ -163,3 +164,36 @@ def run(rep):
         v["class_fn"] = cls
         titems.append(v)
     forms.trace(rep, titems, "c16.rand")
+
+
+def variable_case(rep, rng, n):
+    """straight-line programs (the cases TLC enumerates for C03) in which every occurrence of a variable name gets its own letter case"""
+    import compare
+    import proj
+    from vlib import run_harness_stable_day
+    g = tlc("Gen_Prog", "Gen_Prog", workers=8, timeout=1800, heap="8g")
+    if not g.ok:
+        raise ToolError("Gen_Prog failed")
+    rep.add_tlc("Gen_Prog", g)
+    progs = [c for c in sorted(g.cases, key=lambda c: c["prog"]) if len(c["lines"]) >= 3]
+    progs = progs if len(progs) <= n else rng.sample(progs, n)
+    cfg = render.cfg_with()
+    cases = []
+    for pi, c in enumerate(progs):
+        texts = [render.render_line(l, cfg, rng.choice(["lower", "upper", "title"]), salt="%d.%d" % (pi, i)) for i, l in enumerate(c["lines"])]
+        cases.append({"id": "vc%d" % pi, "cfg": cfg, "steps": [{"op": "execute", "lang": "en", "text": "\n".join(texts)}], "_texts": texts})
+    obs = run_harness_stable_day([{k: v for k, v in x.items() if not k.startswith("_")} for x in cases], "c16.vars", jobs=8)
+    for c, case, o in zip(progs, cases, obs):
+        st = (o.get("steps") or [o])[0]
+        ss = proj.slots_of_step(st)
+        slots = ss[1] if ss and ss[0] is True and len(ss[1]) == len(c["expected"]) else [None] * len(c["expected"])
+        rep.case(["varcase", case["_texts"]], True)
+        rep.replayed += 1
+        for i, (exp, slot) in enumerate(zip(c["expected"], slots)):
+            if not compare.match_slot(exp, slot):
+                rep.violation({"check": "replay", "form": "program", "text": case["_texts"], "cfg": cfg, "expected": c["expected"], "observed": slots if slot is not None else st,
+                               "feat": {"form": "program", "rewrite": "variable_case", "failure": compare.failure_kind(slot, st)},
+                               "class": "%s|program|variable_case|line%d" % (compare.failure_kind(slot, st), i)})
+                break
+            if exp["k"] == "fails" and slot["k"] != "err":
+                break
